@@ -498,8 +498,9 @@ def rule_h5_nnz(repo, col):
     eliminates = any(isinstance(c, ast.Call) and isinstance(
         c.func, ast.Attribute) and c.func.attr == 'eliminate_zeros'
         for c in ast.walk(nnzprop))
-    inv_g = _invariant_g(repo)
-    col.check(eliminates or inv_g, rule, TABLE, 'Table.nnz', 'eliminates',
+    inv_g = False   # the exported file needs the local elimination: the
+    #                 public matrix_data handle lets callers store zeros
+    col.check(eliminates, rule, TABLE, 'Table.nnz', 'eliminates',
               nnzprop, 'the nnz property eliminates stored zeros (or the '
               'table invariant guarantees none)',
               'nnz no longer eliminates stored zeros and the constructor '
@@ -523,8 +524,17 @@ def rule_h5_nnz(repo, col):
     e = elim[0]
     en = cfg.node(e)
     var = dotted(e.targets[0])
-    col.ok(rule, TABLE, 'Table.to_hdf5', 'nnz-source', e,
-           'count read through the eliminating nnz property')
+    other_defs = [n for n in body_walk(f) if isinstance(n, ast.Assign) and
+                  dotted(n.targets[0]) == var and n not in elim]
+    col.check(not other_defs, rule, TABLE, 'Table.to_hdf5', 'nnz-source',
+              other_defs[0] if other_defs else e,
+              'count read through the eliminating nnz property',
+              'on some path the count written as nnz is %s, a raw '
+              'stored-entry count: matrix_data hands out the live matrix, '
+              'so stored zeros can exist whatever the constructor does, and '
+              'they would be counted and exported'
+              % (unparse(other_defs[0].value) if other_defs else ''))
+    inv_g = inv_g and not other_defs
     # attrs['nnz'] = var
     st = w.attrs.get('nnz', [None])[0]
     if st is not None:
